@@ -314,7 +314,7 @@ class CheckIdentityTask(Task):
         I.ob(f"{P}/no-exception-whatever-the-handler-does", kind == "return", detail=f"{kind}:{val!r}")
         if kind != "return":
             return
-        verdict = val[0] if isinstance(val, tuple) and len(val) == 2 else None
+        verdict = I.as_bool(val[0]) if isinstance(val, tuple) and len(val) == 2 else None
         want = True if (not has_req or behaviour in (0, 1)) else (False if behaviour == 2 else verdict_in)
         I.ob(f"{P}/verdict:absent-or-unimplemented-or-positive=>True,exception-or-negative=>False", verdict is want,
              detail=f"behaviour {behaviour} (handler verdict {verdict_in}, server response {resp_kind}): {val!r}")
